@@ -83,7 +83,7 @@ run_read(uint32_t addr, uint32_t n)
             }
     } else {
         outcome = "read-unmapped";
-        if (a.code != REG_ACCESS_NOENTRY)
+        if (a.code == REG_ACCESS_SUCCESS) /* the statement fixes the reported address, not the code */
             mc_fail("C03/read-refuses-unmapped", "read touching unmapped address %ld returned %s", first_unmapped, acc(a.code));
         else if ((long)a.address != first_unmapped)
             mc_fail("C03/first-unmapped-address", "reported %u, first unmapped address is %ld", a.address, first_unmapped);
